@@ -426,8 +426,9 @@ class C18(Prop):
                 r = subprocess.run([sys.executable, '-m', 'vf.coldrun'], cwd=VERIF, capture_output=True, timeout=300,
                                    input=json.dumps({'calls': calls, 'schedule': case['schedule'],
                                                      'threaded': case['cold'] == 'threaded',
-                                                     # (log-uniform over 10 .. 250 000 lines: one-time initialisation is a thin slice early in the first call)
-                                                     'abort_first': (int(10 ** (1 + (case['schedule'][0] % 45) / 10.0)) + case['schedule'][1]
+                                                     # (log-uniform over 100 .. 5 000 lines in two of three cases, else over 10 .. 250 000: one-time initialisation is a thin slice early in the first call)
+                                                     'abort_first': ((int(10 ** (2 + (case['schedule'][0] % 18) / 10.0)) if case['schedule'][2] % 3 else
+                                                                      int(10 ** (1 + (case['schedule'][0] % 45) / 10.0))) + case['schedule'][1]
                                                                      if case['cold'] == 'aborted-first' else None)}).encode('utf-8'),
                                    env=dict(os.environ, VERIF_REPO=REPO, PYTHONHASHSEED='0'))
                 cold = json.loads(r.stdout.decode('utf-8')) if r.returncode == 0 and r.stdout else None
